@@ -1,7 +1,7 @@
 (* C12 - AMF0 wire format conformance in both directions.
    Spec/Amf0Spec.v (reference encoder) and Spec/Amf0Wire.v (conformant encodings and what they denote)
    carry the marker values of the specification as literals and do not mention Gen/Consts.v. *)
-From RML Require Import Model.Base Model.Amf0 Spec.Amf0Spec Spec.Amf0Wire Proofs.Amf0Proofs.
+From RML Require Import Model.Base Model.Amf0 Spec.Amf0Spec Spec.Amf0Wire Proofs.Amf0Proofs Proofs.Amf0Trunc.
 Local Open Scope N_scope.
 
 (* the encoder emits exactly the reference encoding, and refuses exactly what the reference cannot express *)
@@ -35,6 +35,28 @@ Theorem C12_end_marker_stops : forall r f, read_next_value (S f) (9 :: r) = Ok (
 Proof. exact end_marker_stops. Qed.
 
 (* non-vacuity: an ECMA array with a lying count, a repeated name and a boolean byte of 7 *)
+(* the truncation clause: at EVERY truncation point of EVERY conformant encoding of a value sequence (arbitrary property order,
+   ECMA arrays with any count, any boolean byte) the decoder rejects the input or returns a structural prefix of what was encoded -
+   whole leading values, then possibly one strict array cut short (recursively in its last element); scalars, strings and objects
+   are never cut and nothing that was not encoded appears *)
+Theorem C12_truncated_conformant : forall ws p q,
+  wire_elems_ok ws -> wire_elems_bytes ws = p ++ q -> q <> [] ->
+  match deserialize p with
+  | Ok vs' => lprefix vs' (map wire_value ws)
+  | Err _ => True
+  | _ => False
+  end.
+Proof. exact truncated_conformant. Qed.
+
+Theorem C12_truncated_own_encoding : forall vs bs p q,
+  wf_values vs -> serialize vs = Ok bs -> bs = p ++ q -> q <> [] ->
+  match deserialize p with
+  | Ok vs' => lprefix vs' vs
+  | Err _ => True
+  | _ => False
+  end.
+Proof. exact truncated_own_encoding. Qed.
+
 Example C12_example :
   let w := WEcmaArray 4294967295 [([97], WBoolean 7); ([98], WNull); ([97], WString [104; 105])] in
   wire_ok w /\ deserialize (wire_bytes w) = Ok [VObject [([97], VString [104; 105]); ([98], VNull)]].
@@ -46,3 +68,5 @@ Print Assumptions C12_decode_complete.
 Print Assumptions C12_unknown_marker.
 Print Assumptions C12_unknown_marker_toplevel.
 Print Assumptions C12_end_marker_stops.
+Print Assumptions C12_truncated_conformant.
+Print Assumptions C12_truncated_own_encoding.
